@@ -76,9 +76,21 @@ let handle = function
         | _ -> "NoRequest")
   | ["fm"; wire] ->
       (match c11_from_message (bytes_of_hex wire) with
-       | Ok t -> Printf.sprintf "Ok %d" (int_of_n t.mt_start)
-       | Err e -> (match int_of_n e with 1 -> "Invalid" | 2 -> "Position" | 3 -> "Missing" | _ -> "ParseError")
+       | Ok _ -> "Found"
+       | Err e -> (match int_of_n e with 3 -> "None" | _ -> "FORMERR")
        | Panic _ -> "Panic" | OutOfFuel -> "OutOfFuel")
+  | "cseqt" :: a :: s :: nm :: mn :: sg :: req :: treq :: fudge :: rest ->
+      with_key a s nm mn sg (fun k ->
+        match c11_client_request k (bytes_of_hex req) (num treq) (num fudge) with
+        | Ok (c, _) ->
+            let st = ref { cs_ctx = c; cs_first = true; cs_unsigned = N0 } in
+            let rec go l acc = match l with
+              | w :: now :: tl ->
+                  let (st', r) = c11_cseq_answer k !st (bytes_of_hex w) (num now) in
+                  st := st'; go tl (out_with verr (fun _ -> "ok") r :: acc)
+              | _ -> List.rev acc in
+            String.concat "," (go rest [])
+        | _ -> "NoRequest")
   | ["serrw"; a; s; nm; mn; sg; wire; now; resp] ->
       with_key a s nm mn sg (fun k ->
         match c11_server_request k (bytes_of_hex wire) (num now) with
